@@ -78,6 +78,7 @@ type c06Config struct {
 	Before    []int  // lengths of ordinary entries logged before the terminal one (they sit in the buffer)
 	Family    string // "" | sibling-hooks | child-hooks | parent-hooks: another member of the logger family is derived with different terminal hooks (and used) first
 	Earlier   int    // crash-level entries (same level, through a sibling whose terminal hooks only record) logged earlier through the same core
+	StopFirst bool   // the BufferedWriteSyncer is stopped once BEFORE it is first used (clean-up code run early, a pool of syncers recycled)
 	Root      string // "" (zap.New(core, ...)) | NewNop+WrapCore | New(nil)+WrapCore: equivalent ways to arrive at the same logger
 	SyncErr   string // with Fault syncerr: the error value Sync reports: "" (generic) | EINVAL | ENOTTY | PathError
 	Deriv     string // "" | with | withlazy | named | hooks | hooks+withlazy | hooks+with | withlazy+hooks: how the logger under test is derived from the one built on the core
@@ -322,6 +323,7 @@ func propC06(t *rapid.T) {
 		cfg.SyncErr = rapid.SampledFrom([]string{"", "EINVAL", "ENOTTY", "PathError"}).Draw(t, "syncErrValue")
 	}
 	cfg.Root = rapid.SampledFrom([]string{"", "", "NewNop+WrapCore", "New(nil)+WrapCore"}).Draw(t, "root")
+	cfg.StopFirst = cfg.BufSize >= 0 && rapid.IntRange(0, 3).Draw(t, "syncerStoppedBeforeFirstUse") == 0
 	cfg.Family = rapid.SampledFrom([]string{"", "", "sibling-hooks", "child-hooks", "parent-hooks"}).Draw(t, "family")
 	cfg.Deriv = rapid.SampledFrom([]string{"", "", "with", "withlazy", "named", "hooks", "hooks+withlazy", "hooks+with", "withlazy+hooks"}).Draw(t, "derivation")
 	c06RunInProcess(t, cfg)
@@ -360,6 +362,9 @@ func c06RunInProcess(t interface{ Fatalf(string, ...any) }, cfg c06Config) {
 	var ws zapcore.WriteSyncer = under
 	if cfg.BufSize >= 0 {
 		bws := &zapcore.BufferedWriteSyncer{WS: under, Size: cfg.bufSize(), FlushInterval: time.Hour}
+		if cfg.StopFirst {
+			_ = bws.Stop() // nothing has been started yet: stopping it now is a no-op that leaves no trace
+		}
 		defer bws.Stop()
 		ws = bws
 	}
